@@ -233,6 +233,7 @@ pub const WORKLOADS: &[&str] = &[
     "cross_thread_merge_many",
     "cross_thread_merge_sequential",
     "stride_scan",
+    "special_priority_values",
 ];
 
 /// Runs one workload to `n` elements. Returns the treap's final stats for the evidence.
@@ -427,7 +428,7 @@ pub fn run_workload(name: &str, n: usize, seed: u64, rep: &mut Report) {
                 let mut keep_checking = true;
                 for i in 0..m {
                     let mut single = lib!(Treap::from_item(item(i as u64)));
-                    single.root.as_mut().unwrap().priority = [7u32, 7, 8, 7, 9][rng.usize_below(5)];
+                    single.root.as_mut().unwrap().priority = [7u32, 7, 8, 7, 9, 0, u32::MAX, u32::MAX - 1, 1][rng.usize_below(if i % 2 == 0 { 5 } else { 9 })];
                     let pos = rng.range_usize(0, len);
                     let old = std::mem::take(&mut t);
                     let (a, b) = lib!(old.split_at(pos));
@@ -543,6 +544,124 @@ pub fn run_workload(name: &str, n: usize, seed: u64, rep: &mut Report) {
                         return;
                     }
                 }
+            }
+            "special_priority_values" => {
+                // A path that is only taken when a drawn priority has a special value (0, u32::MAX) is reached by chance
+                // once in 2^32 node creations. The priority stream of a thread is a deterministic function of the order
+                // in which threads first create a node, so the place where a special value is due can be computed: the
+                // model (seed 42 + k * golden ratio, 64-bit LCG of rlib_rand, low word of the folded output) is compared
+                // with a probe thread's first priorities; if it describes them, the nearest (thread, creation index) with
+                // priority 0 or u32::MAX is searched, the threads before it are used up, and on that thread the special
+                // node is created in the middle of 3000 sorted appends. Skipped (recorded) if the model does not apply.
+                const G: u64 = 0x9E37_79B9_7F4A_7C15;
+                const A: u64 = 6364136223846793005;
+                const C: u64 = 1442695040888963407;
+                let prio_at = |k: u64, upto: usize, out: &mut Vec<u32>| {
+                    let mut st = 42u64.wrapping_add(k.wrapping_mul(G));
+                    for _ in 0..upto {
+                        st = st.wrapping_mul(A).wrapping_add(C);
+                        out.push((st ^ (st >> 32)) as u32);
+                    }
+                };
+                let probe: Vec<u32> = std::thread::spawn(|| (0..3).map(|i| TreapNode::new(item(i)).priority).collect()).join().unwrap_or_default();
+                let mut k0: Option<u64> = None;
+                for k in 0..200_000u64 {
+                    let mut v = Vec::with_capacity(3);
+                    prio_at(k, 3, &mut v);
+                    if v == probe {
+                        k0 = Some(k);
+                        break;
+                    }
+                }
+                let k0 = match k0 {
+                    Some(k) => k,
+                    None => {
+                        cx.rep.extra("special_priority_values", "not applicable: a fresh thread's priorities are not the modelled stream (seed 42 + k*G, rlib_rand LCG)");
+                        return;
+                    }
+                };
+                // search the next 256 threads x 2^25 creations, 16 searchers
+                let found: Vec<(u64, usize, u32)> = std::thread::scope(|sc| {
+                    let hs: Vec<_> = (0..16u64)
+                        .map(|w| {
+                            sc.spawn(move || {
+                                let mut best: Vec<(u64, usize, u32)> = Vec::new();
+                                let mut t = k0 + 1 + w;
+                                while t < k0 + 1 + 256 {
+                                    let mut st = 42u64.wrapping_add(t.wrapping_mul(G));
+                                    for j in 0..(1usize << 25) {
+                                        st = st.wrapping_mul(A).wrapping_add(C);
+                                        let p = (st ^ (st >> 32)) as u32;
+                                        if (p == 0 || p == u32::MAX) && j >= 2000 {
+                                            best.push((t, j, p));
+                                            break;
+                                        }
+                                    }
+                                    t += 16;
+                                }
+                                best
+                            })
+                        })
+                        .collect();
+                    hs.into_iter().flat_map(|h| h.join().unwrap_or_default()).collect()
+                });
+                cx.rep.count("special_priority_positions_found", found.len() as u64);
+                // the cheapest position for each of the two values
+                let mut next_thread = k0 + 1;
+                for want in [0u32, u32::MAX] {
+                    let mut cands: Vec<&(u64, usize, u32)> = found.iter().filter(|f| f.2 == want && f.0 >= next_thread).collect();
+                    cands.sort_by_key(|f| f.1 + 20_000 * (f.0 - next_thread) as usize);
+                    let &(tk, j, _) = match cands.first() {
+                        Some(c) => *c,
+                        None => continue,
+                    };
+                    // use up the generators of the threads in between
+                    while next_thread < tk {
+                        let _ = std::thread::spawn(|| TreapNode::new(item(0)).priority).join();
+                        next_thread += 1;
+                    }
+                    next_thread = tk + 1;
+                    let res = std::thread::Builder::new()
+                        .stack_size(256 << 20)
+                        .spawn(move || {
+                            for i in 0..j - 1500 {
+                                drop(TreapNode::new(item(i as u64)));
+                            }
+                            let mut tr: Treap<KeyItem> = Treap::new();
+                            let mut special_seen = false;
+                            for i in 0..3000usize {
+                                tr.insert_at(i, item(i as u64));
+                            }
+                            // the node with the special value is the 1501st appended
+                            fn find(n: &TreapNode<KeyItem>, want: u32) -> bool {
+                                n.priority == want || n.left.as_ref().map(|l| find(l, want)).unwrap_or(false) || n.right.as_ref().map(|r| find(r, want)).unwrap_or(false)
+                            }
+                            if let Some(r) = &tr.root {
+                                special_seen = find(r, want);
+                            }
+                            (tr, special_seen)
+                        })
+                        .expect("spawn")
+                        .join();
+                    match res {
+                        Ok((tr, seen)) => {
+                            cx.rep.inc("special_priority_treaps_built");
+                            if seen {
+                                cx.rep.inc("special_priority_values_observed_in_a_treap");
+                            }
+                            let ok = cx.checkpoint(&tr, 3000, &format!("3000 sorted appends around the creation that draws priority {:#x} (thread #{} of the process, its creation #{})", want, tk, j));
+                            if !ok {
+                                std::mem::forget(tr);
+                                return;
+                            }
+                        }
+                        Err(_) => {
+                            cx.violation("panic", Json::obj().set("what", "building a treap around the creation that draws a special priority value panicked").set("priority", want as u64));
+                            return;
+                        }
+                    }
+                }
+                len = 0;
             }
             "stride_scan" => {
                 // A treap whose elements are every q-th created node (q - 1 scratch nodes are created and dropped between two
